@@ -1577,62 +1577,65 @@ theorem vm_inj {vm : VMap} (hinj : (vm.map (·.2)).Nodup) {a1 a2 b : VId}
     · exact absurd (show (a1, b).2 = p.2 by rw [← h2]) (hinj.1 _ h1)
     · exact ih hinj.2 h1 h2
 
-theorem cloneInputs_spec {vm : VMap} : ∀ {ins : List (Option VId)} {res : List (Option VId)},
-    cloneInputs vm ins = some res →
-    (∀ v, some v ∈ ins → ∃ b, vlookup vm v = some b ∧ some b ∈ res) ∧
-    (∀ b, some b ∈ res → ∃ v, some v ∈ ins ∧ vlookup vm v = some b) := by
+/-- where an input of a cloned node goes: through the value map when it has an entry, unchanged
+    (an outer-scope value that is passed through) otherwise -/
+def tgt (vm : VMap) (v : VId) : VId := (vlookup vm v).getD v
+
+/-- a successful `cloneInputs` maps every input through `tgt` -/
+theorem cloneInputs_eq {allow : Bool} {pending : List VId} {vm : VMap} :
+    ∀ {ins : List (Option VId)} {res : List (Option VId)},
+    cloneInputs allow pending vm ins = some res → res = ins.map (Option.map (tgt vm)) := by
   intro ins
   induction ins with
-  | nil => intro res h; simp [cloneInputs] at h; subst h; simp
+  | nil => intro res h; simp [cloneInputs] at h; subst h; rfl
   | cons o rest ih =>
     intro res h
     cases o with
     | none =>
       simp only [cloneInputs] at h
-      cases hr : cloneInputs vm rest with
+      cases hr : cloneInputs allow pending vm rest with
       | none => simp [hr] at h
       | some r =>
         simp [hr] at h
         subst h
-        obtain ⟨a, b⟩ := ih hr
-        constructor
-        · intro v hv
-          simp only [List.mem_cons] at hv
-          rcases hv with hv | hv
-          · cases hv
-          · obtain ⟨x, hx1, hx2⟩ := a v hv
-            exact ⟨x, hx1, by simp [hx2]⟩
-        · intro x hx
-          simp only [List.mem_cons] at hx
-          rcases hx with hx | hx
-          · cases hx
-          · obtain ⟨v, hv1, hv2⟩ := b x hx
-            exact ⟨v, by simp [hv1], hv2⟩
+        simp [ih hr]
     | some v0 =>
       simp only [cloneInputs] at h
       cases hl : vlookup vm v0 with
-      | none => simp [hl] at h
+      | none =>
+        simp only [hl] at h
+        split at h
+        · cases hr : cloneInputs allow pending vm rest with
+          | none => simp [hr] at h
+          | some r =>
+            simp [hr] at h
+            subst h
+            simp [ih hr, tgt, hl]
+        · cases h
       | some b0 =>
         simp only [hl] at h
-        cases hr : cloneInputs vm rest with
+        cases hr : cloneInputs allow pending vm rest with
         | none => simp [hr] at h
         | some r =>
           simp [hr] at h
           subst h
-          obtain ⟨a, b⟩ := ih hr
-          constructor
-          · intro v hv
-            simp only [List.mem_cons] at hv
-            rcases hv with hv | hv
-            · cases hv; exact ⟨b0, hl, by simp⟩
-            · obtain ⟨x, hx1, hx2⟩ := a v hv
-              exact ⟨x, hx1, by simp [hx2]⟩
-          · intro x hx
-            simp only [List.mem_cons] at hx
-            rcases hx with hx | hx
-            · cases hx; exact ⟨v0, by simp, hl⟩
-            · obtain ⟨v, hv1, hv2⟩ := b x hx
-              exact ⟨v, by simp [hv1], hv2⟩
+          simp [ih hr, tgt, hl]
+
+/-- what is known about the entries of a value map of the cloner, relative to the source world `w` and
+    the current world `wc`: the targets exist, are new objects, have the shape of their source and are
+    pairwise different -/
+structure VmOK (w wc : World) (vm : VMap) : Prop where
+  lt : ∀ p ∈ vm, p.2 < wc.values.length
+  fresh : ∀ p ∈ vm, w.values.length ≤ p.2
+  shape : ∀ p ∈ vm, p.1 < w.values.length → (wc.value p.2).shape = (w.value p.1).shape
+  inj : (vm.map (·.2)).Nodup
+
+theorem VmOK.nil (w wc : World) : VmOK w wc [] := ⟨by simp, by simp, by simp, by simp⟩
+
+theorem VmOK.ext {w wc wc' : World} {vm : VMap} (h : VmOK w wc vm) (he : Ext wc wc') : VmOK w wc' vm := by
+  refine ⟨fun p hp => Nat.lt_of_lt_of_le (h.lt p hp) he.vlen, h.fresh, ?_, h.inj⟩
+  intro p hp hlt
+  rw [he.shape p.2 (h.lt p hp)]; exact h.shape p hp hlt
 
 /-- what holds of the world and value map while a graph is being cloned -/
 structure CloneInv (w : World) (cfgs : List CId) (wc : World) (vm : VMap) : Prop where
@@ -1640,16 +1643,25 @@ structure CloneInv (w : World) (cfgs : List CId) (wc : World) (vm : VMap) : Prop
   cfgsEq : wc.cfgs = w.cfgs
   models : wc.models = w.models
   nodes : ∃ extra, wc.nodes = w.nodes ++ extra ∧ ∀ nd ∈ extra, NodeOK wc nd ∧ ∀ nc ∈ nd.dev, nc.cfg ∈ cfgs
-  vmLt : ∀ p ∈ vm, p.2 < wc.values.length
-  vmShape : ∀ p ∈ vm, p.1 < w.values.length → (wc.value p.2).shape = (w.value p.1).shape
-  vmInj : (vm.map (·.2)).Nodup
+  vmok : VmOK w wc vm
+  vals : ∃ extra, wc.values = w.values ++ extra
 
 theorem CloneInv.init (w : World) (cfgs : List CId) : CloneInv w cfgs w [] :=
-  ⟨Ext.refl w, rfl, rfl, ⟨[], by simp, by simp⟩, by simp, by simp, by simp⟩
+  ⟨Ext.refl w, rfl, rfl, ⟨[], by simp, by simp⟩, VmOK.nil w w, ⟨[], by simp⟩⟩
+
+/-- a new `Cloner` on the same world -/
+theorem CloneInv.reset {w : World} {cfgs : List CId} {wc : World} {vm : VMap} (h : CloneInv w cfgs wc vm) :
+    CloneInv w cfgs wc [] := ⟨h.ext, h.cfgsEq, h.models, h.nodes, VmOK.nil w wc, h.vals⟩
 
 theorem value_append_left (w : World) (extra : List ValueS) (v : VId) (hv : v < w.values.length) :
     World.value { w with values := w.values ++ extra } v = w.value v := by
   simp [World.value, List.getD_eq_getElem?_getD, List.getElem?_append_left hv]
+
+theorem cloneValue_ext (st : World × VMap) (v : VId) : Ext st.1 (cloneValue st v).1 := by
+  unfold cloneValue
+  split
+  · exact Ext.refl _
+  · exact Ext_append_values st.1 _
 
 theorem cloneValue_inv {w : World} {cfgs : List CId} {wc : World} {vm : VMap}
     (h : CloneInv w cfgs wc vm) (v : VId) :
@@ -1660,14 +1672,21 @@ theorem cloneValue_inv {w : World} {cfgs : List CId} {wc : World} {vm : VMap}
   · exact h
   · have hext : Ext wc { wc with values := wc.values ++ [wc.value v] } := Ext_append_values wc _
     obtain ⟨extra, hex, hok⟩ := h.nodes
-    refine ⟨h.ext.trans hext, h.cfgsEq, h.models, ⟨extra, hex, ?_⟩, ?_, ?_, ?_⟩
+    obtain ⟨vex, hvex⟩ := h.vals
+    refine ⟨h.ext.trans hext, h.cfgsEq, h.models, ⟨extra, hex, ?_⟩, ⟨?_, ?_, ?_, ?_⟩,
+      ⟨vex ++ [wc.value v], by simp [hvex]⟩⟩
     · intro nd hnd; exact ⟨(hok nd hnd).1.ext hext, (hok nd hnd).2⟩
     · intro p hp
       simp only [List.mem_cons] at hp
       rcases hp with hp | hp
       · subst hp; simp
-      · have := h.vmLt p hp
+      · have := h.vmok.lt p hp
         simp only [List.length_append, List.length_singleton]; exact Nat.lt_succ_of_lt this
+    · intro p hp
+      simp only [List.mem_cons] at hp
+      rcases hp with hp | hp
+      · subst hp; exact h.ext.vlen
+      · exact h.vmok.fresh p hp
     · intro p hp hlt
       simp only [List.mem_cons] at hp
       rcases hp with hp | hp
@@ -1677,14 +1696,14 @@ theorem cloneValue_inv {w : World} {cfgs : List CId} {wc : World} {vm : VMap}
           simp [World.value, List.getD_eq_getElem?_getD]
         rw [this]
         exact h.ext.shape v hlt
-      · rw [value_append_left wc _ p.2 (h.vmLt p hp)]
-        exact h.vmShape p hp hlt
+      · rw [value_append_left wc _ p.2 (h.vmok.lt p hp)]
+        exact h.vmok.shape p hp hlt
     · simp only [List.map_cons, List.nodup_cons]
-      refine ⟨?_, h.vmInj⟩
+      refine ⟨?_, h.vmok.inj⟩
       intro hmem
       simp only [List.mem_map] at hmem
       obtain ⟨p, hp, hpe⟩ := hmem
-      have := h.vmLt p hp
+      have := h.vmok.lt p hp
       rw [hpe] at this
       exact Nat.lt_irrefl _ this
 
@@ -1698,6 +1717,24 @@ theorem foldl_cloneValue_inv {w : World} {cfgs : List CId} (ins : List VId) :
     simp only [List.foldl_cons]
     have := cloneValue_inv h v
     exact ih this
+
+theorem cloneValue_nodes (st : World × VMap) (v : VId) : (cloneValue st v).1.nodes = st.1.nodes := by
+  unfold cloneValue
+  split <;> rfl
+
+theorem foldl_cloneValue_nodes (ins : List VId) : ∀ (st : World × VMap),
+    (ins.foldl cloneValue st).1.nodes = st.1.nodes := by
+  induction ins with
+  | nil => intro st; rfl
+  | cons v rest ih => intro st; simp only [List.foldl_cons]; rw [ih, cloneValue_nodes]
+
+theorem foldl_cloneValue_ext (ins : List VId) : ∀ (st : World × VMap), Ext st.1 (ins.foldl cloneValue st).1 := by
+  induction ins with
+  | nil => intro st; exact Ext.refl _
+  | cons v rest ih =>
+    intro st
+    simp only [List.foldl_cons]
+    exact (cloneValue_ext st v).trans (ih _)
 
 theorem Ext.of_append {w w' : World} (extra : List ValueS) (hv : w'.values = w.values ++ extra)
     (hc : w'.cfgs = w.cfgs) : Ext w w' := by
@@ -1754,287 +1791,326 @@ theorem remapSpec_of_lookup {vm : VMap} {s : Spec} {b : VId} (h : vlookup vm s.v
     remapSpec vm s = { s with value := b } := by
   simp [remapSpec, h]
 
+/-- the input part of `io_map` -/
+def inPart (f : VId → VId) (ins : List (Option VId)) : VMap :=
+  ((ins.zip (ins.map (Option.map f))).filterMap (fun p => match p with
+    | (some a, some b) => some (a, b)
+    | _ => none)).reverse
+
+theorem mem_inPart {f : VId → VId} {ins : List (Option VId)} {a b : VId} :
+    (a, b) ∈ inPart f ins ↔ some a ∈ ins ∧ b = f a := by
+  unfold inPart
+  rw [List.mem_reverse]
+  induction ins with
+  | nil => simp
+  | cons o rest ih =>
+    cases o with
+    | none =>
+      simp only [List.map_cons, List.zip_cons_cons, List.filterMap_cons, Option.map_none]
+      rw [ih]; simp
+    | some x =>
+      simp only [List.map_cons, List.zip_cons_cons, List.filterMap_cons, Option.map_some, List.mem_cons, Prod.mk.injEq]
+      rw [ih]
+      constructor
+      · rintro (⟨rfl, rfl⟩ | ⟨h1, h2⟩)
+        · exact ⟨Or.inl rfl, rfl⟩
+        · exact ⟨Or.inr h1, h2⟩
+      · rintro ⟨h1 | h1, h2⟩
+        · cases h1; exact Or.inl ⟨rfl, h2⟩
+        · exact Or.inr ⟨h1, h2⟩
+
+theorem vlookup_inPart {f : VId → VId} {ins : List (Option VId)} (x : VId) :
+    vlookup (inPart f ins) x = if some x ∈ ins then some (f x) else none := by
+  cases hl : vlookup (inPart f ins) x with
+  | some b =>
+    have := mem_inPart.mp (vlookup_mem hl)
+    simp [this.1, this.2]
+  | none =>
+    split
+    · rename_i hx
+      obtain ⟨b', hb'⟩ := vlookup_isSome_of_mem (mem_inPart.mpr ⟨hx, rfl⟩)
+      rw [hb'] at hl; cases hl
+    · rfl
+
+theorem ioMap_eq (f : VId → VId) (ins : List (Option VId)) (outs newOuts : List VId) :
+    ioMap ins (ins.map (Option.map f)) outs newOuts = (outs.zip newOuts).reverse ++ inPart f ins := rfl
+
+/-- the `io_map` of the node `clone_node` creates -/
+def nodeIoMap (wc : World) (vm0 : VMap) (nd : NodeS) : VMap :=
+  ioMap nd.inputs (nd.inputs.map (Option.map (tgt vm0))) nd.outputs
+    (List.range' wc.values.length nd.outputs.length)
+
 /-- the node `clone_node` creates -/
-def clonedNode (wc : World) (ins : List (Option VId)) (nd : NodeS) (vm1 : VMap) (subs : List GId) : NodeS :=
-  { inputs := ins, outputs := List.range' wc.values.length nd.outputs.length, dev := remapDev vm1 nd.dev,
+def clonedNode (wc : World) (vm0 : VMap) (nd : NodeS) (subs : List GId) : NodeS :=
+  { inputs := nd.inputs.map (Option.map (tgt vm0)),
+    outputs := List.range' wc.values.length nd.outputs.length,
+    dev := remapDev (nodeIoMap wc vm0 nd) nd.dev,
     subgraphs := subs }
 
-/-- creating the clone of node `nd` once its inputs have been resolved (through the map `vm`) and its
-    subgraphs cloned -/
-theorem buildNode_inv {w : World} {cfgs : List CId} {wc : World} {vm : VMap} {nd : NodeS}
-    (h : CloneInv w cfgs wc vm) (hnd : NodeOK w nd) (hreg : ∀ nc ∈ nd.dev, nc.cfg ∈ cfgs)
-    {ins : List (Option VId)} {subs : List GId}
-    (hin1 : ∀ v, some v ∈ nd.inputs → ∃ b, vlookup vm v = some b ∧ some b ∈ ins)
-    (hin2 : ∀ b, some b ∈ ins → ∃ v, some v ∈ nd.inputs ∧ vlookup vm v = some b)
-    {w1 : World} {vm1 : VMap}
+/-- creating the clone of node `nd` once its inputs have been resolved (through the map `vm0` the cloner
+    had when it looked at the inputs) and its subgraphs cloned (reaching the world `wc` and the map `vm`) -/
+theorem buildNode_inv {w : World} {cfgs : List CId} {wc : World} {vm vm0 : VMap} {nd : NodeS}
+    (h : CloneInv w cfgs wc vm) (h0 : VmOK w wc vm0) (hnd : NodeOK w nd) (hreg : ∀ nc ∈ nd.dev, nc.cfg ∈ cfgs)
+    {subs : List GId} {w1 : World} {vm1 : VMap}
     (hv1 : w1.values = wc.values ++ nd.outputs.map wc.value) (hc1 : w1.cfgs = wc.cfgs)
-    (hm1 : w1.models = wc.models) (hn1 : w1.nodes = wc.nodes ++ [(clonedNode wc ins nd vm1 subs)])
+    (hm1 : w1.models = wc.models) (hn1 : w1.nodes = wc.nodes ++ [(clonedNode wc vm0 nd subs)])
     (hvm1 : (nd.outputs.zip (List.range' wc.values.length nd.outputs.length)).reverse ++ vm = vm1) :
     CloneInv w cfgs w1 vm1 ∧ w1.nodes.length = wc.nodes.length + 1 := by
   have hlen : nd.outputs.length = (List.range' wc.values.length nd.outputs.length).length := by simp
-  have hk : wc.nodes.length = wc.nodes.length := rfl
-  cases hdummy : (some ins : Option (List (Option VId))) with
-  | none => cases hdummy
-  | some ins0 =>
-    have hext1 : Ext wc w1 := Ext.of_append _ hv1 hc1
-    have hextw : Ext w w1 := h.ext.trans hext1
-    have hzip : ∀ a b, (a, b) ∈ (nd.outputs.zip (List.range' wc.values.length nd.outputs.length)).reverse →
-        w1.value b = wc.value a ∧ wc.values.length ≤ b ∧ b < wc.values.length + nd.outputs.length ∧ a ∈ nd.outputs := by
-      intro a b hab
-      rw [List.mem_reverse] at hab
-      exact zip_range'_value hab w1 hv1
-    have hlenv : w1.values.length = wc.values.length + nd.outputs.length := by rw [hv1]; simp
-    -- value map facts
-    have hvmLt : ∀ p ∈ vm1, p.2 < w1.values.length := by
-      intro p hp
+  have hext1 : Ext wc w1 := Ext.of_append _ hv1 hc1
+  have hextw : Ext w w1 := h.ext.trans hext1
+  have hzip : ∀ a b, (a, b) ∈ (nd.outputs.zip (List.range' wc.values.length nd.outputs.length)).reverse →
+      w1.value b = wc.value a ∧ wc.values.length ≤ b ∧ b < wc.values.length + nd.outputs.length ∧ a ∈ nd.outputs := by
+    intro a b hab
+    rw [List.mem_reverse] at hab
+    exact zip_range'_value hab w1 hv1
+  have hlenv : w1.values.length = wc.values.length + nd.outputs.length := by rw [hv1]; simp
+  have hzinj : (((nd.outputs.zip (List.range' wc.values.length nd.outputs.length)).reverse).map (·.2)).Nodup := by
+    rw [List.map_reverse, nodup_reverse', List.map_snd_zip (by simp)]
+    exact List.nodup_range' (h := by decide)
+  -- value map facts
+  have hvmok : VmOK w w1 vm1 := by
+    refine ⟨?_, ?_, ?_, ?_⟩
+    · intro p hp
       rw [← hvm1, List.mem_append] at hp
       rcases hp with hp | hp
       · rw [hlenv]; exact (hzip p.1 p.2 hp).2.2.1
-      · rw [hlenv]; exact Nat.lt_of_lt_of_le (h.vmLt p hp) (Nat.le_add_right _ _)
-    have hvmShape : ∀ p ∈ vm1, p.1 < w.values.length → (w1.value p.2).shape = (w.value p.1).shape := by
-      intro p hp hlt
+      · rw [hlenv]; exact Nat.lt_of_lt_of_le (h.vmok.lt p hp) (Nat.le_add_right _ _)
+    · intro p hp
+      rw [← hvm1, List.mem_append] at hp
+      rcases hp with hp | hp
+      · exact Nat.le_trans h.ext.vlen (hzip p.1 p.2 hp).2.1
+      · exact h.vmok.fresh p hp
+    · intro p hp hlt
       rw [← hvm1, List.mem_append] at hp
       rcases hp with hp | hp
       · rw [(hzip p.1 p.2 hp).1]; exact h.ext.shape p.1 hlt
-      · rw [hext1.shape p.2 (h.vmLt p hp)]; exact h.vmShape p hp hlt
-    have hvmInj : (vm1.map (·.2)).Nodup := by
-      rw [← hvm1, List.map_append, List.nodup_append]
-      refine ⟨?_, h.vmInj, ?_⟩
-      · rw [List.map_reverse, nodup_reverse', List.map_snd_zip (by simp)]
-        exact List.nodup_range' (h := by decide)
-      · intro x hx y hy
-        simp only [List.mem_map] at hx hy
-        obtain ⟨p, hp, rfl⟩ := hx
-        obtain ⟨q, hq, rfl⟩ := hy
-        have h1 := (hzip p.1 p.2 hp).2.1
-        have h2 := h.vmLt q hq
-        intro e
-        rw [e] at h1
-        exact Nat.lt_irrefl _ (Nat.lt_of_lt_of_le h2 h1)
-    -- the new node
-    have hnewok : NodeOK w1 (clonedNode wc ins nd vm1 subs) ∧ ∀ nc ∈ remapDev vm1 nd.dev, nc.cfg ∈ cfgs := by
-      obtain ⟨hids, hndup, hall⟩ := hnd
-      have hlook : ∀ v, InIO nd v → ∃ b, vlookup vm1 v = some b ∧
-          InIO (clonedNode wc ins nd vm1 subs) b := by
-        intro v hv
-        by_cases hvo : v ∈ nd.outputs
-        · obtain ⟨b, hb⟩ := vlookup_zip_mem hlen vm v hvo
-          refine ⟨b, by rw [← hvm1]; exact hb, Or.inr ?_⟩
-          rcases vlookup_zip hlen vm v b hb with ⟨_, h2⟩ | ⟨h1, _⟩
-          · exact h2
-          · exact absurd hvo h1
-        · rcases hv with hv | hv
-          · obtain ⟨b, hb1, hb2⟩ := hin1 v hv
-            refine ⟨b, ?_, Or.inl hb2⟩
-            rw [← hvm1, vlookup_append]
-            cases hz : vlookup (nd.outputs.zip (List.range' wc.values.length nd.outputs.length)).reverse v with
-            | none => simp [hb1]
-            | some b' =>
-              have := vlookup_mem hz
-              exact absurd (hzip v b' this).2.2.2 hvo
+      · rw [hext1.shape p.2 (h.vmok.lt p hp)]; exact h.vmok.shape p hp hlt
+    · rw [← hvm1, List.map_append, List.nodup_append]
+      refine ⟨hzinj, h.vmok.inj, ?_⟩
+      intro x hx y hy
+      simp only [List.mem_map] at hx hy
+      obtain ⟨p, hp, rfl⟩ := hx
+      obtain ⟨q, hq, rfl⟩ := hy
+      have h1 := (hzip p.1 p.2 hp).2.1
+      have h2 := h.vmok.lt q hq
+      intro e
+      rw [e] at h1
+      exact Nat.lt_irrefl _ (Nat.lt_of_lt_of_le h2 h1)
+  -- the new node
+  have hnewok : NodeOK w1 (clonedNode wc vm0 nd subs) ∧ ∀ nc ∈ (clonedNode wc vm0 nd subs).dev, nc.cfg ∈ cfgs := by
+    obtain ⟨hids, hndup, hall⟩ := hnd
+    -- where `tgt vm0` sends a value of the source world
+    have htgt : ∀ v, v < w.values.length → tgt vm0 v < wc.values.length ∧
+        (w1.value (tgt vm0 v)).shape = (w.value v).shape := by
+      intro v hv
+      unfold tgt
+      cases hl : vlookup vm0 v with
+      | none =>
+        simp only [Option.getD_none]
+        exact ⟨Nat.lt_of_lt_of_le hv h.ext.vlen, hextw.shape v hv⟩
+      | some b =>
+        simp only [Option.getD_some]
+        have hm := vlookup_mem hl
+        exact ⟨h0.lt _ hm, by rw [hext1.shape b (h0.lt _ hm)]; exact h0.shape _ hm hv⟩
+    have htinj : ∀ x y, x < w.values.length → y < w.values.length → tgt vm0 x = tgt vm0 y → x = y := by
+      intro x y hx hy e
+      cases hlx : vlookup vm0 x with
+      | none =>
+        have ex : tgt vm0 x = x := by simp [tgt, hlx]
+        cases hly : vlookup vm0 y with
+        | none =>
+          have ey : tgt vm0 y = y := by simp [tgt, hly]
+          rw [ex, ey] at e; exact e
+        | some b =>
+          have ey : tgt vm0 y = b := by simp [tgt, hly]
+          rw [ex, ey] at e
+          have e' : (x : Nat) = b := e
+          have : w.values.length ≤ b := h0.fresh (y, b) (vlookup_mem hly)
+          omega
+      | some a =>
+        have ex : tgt vm0 x = a := by simp [tgt, hlx]
+        cases hly : vlookup vm0 y with
+        | none =>
+          have ey : tgt vm0 y = y := by simp [tgt, hly]
+          rw [ex, ey] at e
+          have hge : w.values.length ≤ a := h0.fresh (x, a) (vlookup_mem hlx)
+          rw [e] at hge
+          exact absurd hge (Nat.not_le.mpr hy)
+        | some b =>
+          have ey : tgt vm0 y = b := by simp [tgt, hly]
+          rw [ex, ey] at e
+          subst e
+          exact vm_inj h0.inj (vlookup_mem hlx) (vlookup_mem hly)
+    -- the io map on a value of the node
+    have hlook : ∀ v, InIO nd v → ∃ b,
+        vlookup (nodeIoMap wc vm0 nd) v = some b ∧
+        InIO (clonedNode wc vm0 nd subs) b ∧ b < w1.values.length ∧ (w1.value b).shape = (w.value v).shape ∧
+        ((v ∈ nd.outputs ∧ (v, b) ∈ (nd.outputs.zip (List.range' wc.values.length nd.outputs.length)).reverse) ∨
+         (v ∉ nd.outputs ∧ b = tgt vm0 v)) := by
+      intro v hv
+      have hvlt : v < w.values.length := InIO.lt hids hv
+      unfold nodeIoMap
+      rw [ioMap_eq]
+      by_cases hvo : v ∈ nd.outputs
+      · obtain ⟨b, hb⟩ := vlookup_zip_mem hlen (inPart (tgt vm0) nd.inputs) v hvo
+        have hbz : (v, b) ∈ (nd.outputs.zip (List.range' wc.values.length nd.outputs.length)).reverse := by
+          rw [vlookup_append] at hb
+          cases hz : vlookup (nd.outputs.zip (List.range' wc.values.length nd.outputs.length)).reverse v with
+          | none =>
+            exfalso
+            have hfst : (nd.outputs.zip (List.range' wc.values.length nd.outputs.length)).map Prod.fst = nd.outputs :=
+              List.map_fst_zip (by simp)
+            rw [← hfst] at hvo
+            simp only [List.mem_map] at hvo
+            obtain ⟨p, hp, hpa⟩ := hvo
+            have : (v, p.2) ∈ (nd.outputs.zip (List.range' wc.values.length nd.outputs.length)).reverse := by
+              rw [List.mem_reverse, ← hpa]; exact hp
+            obtain ⟨b', hb'⟩ := vlookup_isSome_of_mem this
+            rw [hb'] at hz; cases hz
+          | some b' =>
+            simp only [hz, Option.or_some] at hb
+            cases hb
+            exact vlookup_mem hz
+        obtain ⟨z1, z2, z3, _⟩ := hzip v b hbz
+        refine ⟨b, hb, Or.inr ?_, by rw [hlenv]; exact z3, by rw [z1]; exact h.ext.shape v hvlt, Or.inl ⟨hvo, hbz⟩⟩
+        show b ∈ List.range' wc.values.length nd.outputs.length
+        rw [List.mem_range'_1]; exact ⟨z2, z3⟩
+      · have hvi : some v ∈ nd.inputs := by
+          rcases hv with hv | hv
+          · exact hv
           · exact absurd hv hvo
-      refine ⟨⟨⟨?_, ?_⟩, ?_, ?_⟩, ?_⟩
-      · intro o ho v hov
-        subst hov
-        obtain ⟨v0, _, hv0⟩ := hin2 v ho
-        have := h.vmLt _ (vlookup_mem hv0)
+        have hz : vlookup (nd.outputs.zip (List.range' wc.values.length nd.outputs.length)).reverse v = none := by
+          cases hz : vlookup (nd.outputs.zip (List.range' wc.values.length nd.outputs.length)).reverse v with
+          | none => rfl
+          | some b' => exact absurd (hzip v b' (vlookup_mem hz)).2.2.2 hvo
+        refine ⟨tgt vm0 v, ?_, Or.inl ?_, ?_, (htgt v hvlt).2, Or.inr ⟨hvo, rfl⟩⟩
+        · rw [vlookup_append, hz, vlookup_inPart]; simp [hvi]
+        · show some (tgt vm0 v) ∈ nd.inputs.map (Option.map (tgt vm0))
+          exact List.mem_map.mpr ⟨some v, hvi, rfl⟩
+        · rw [hlenv]; exact Nat.lt_of_lt_of_le (htgt v hvlt).1 (Nat.le_add_right _ _)
+    refine ⟨⟨⟨?_, ?_⟩, ?_, ?_⟩, ?_⟩
+    · intro o ho v hov
+      subst hov
+      have ho' : some v ∈ nd.inputs.map (Option.map (tgt vm0)) := ho
+      simp only [List.mem_map] at ho'
+      obtain ⟨o0, ho0, he⟩ := ho'
+      cases o0 with
+      | none => cases he
+      | some v0 =>
+        simp only [Option.map_some, Option.some.injEq] at he
+        subst he
+        have := (htgt v0 (hids.1 _ ho0 v0 rfl)).1
         rw [hlenv]; exact Nat.lt_of_lt_of_le this (Nat.le_add_right _ _)
-      · intro v hv
-        have hv : v ∈ List.range' wc.values.length nd.outputs.length := hv
-        rw [List.mem_range'_1] at hv
-        rw [hlenv]; exact hv.2
-      · show ((remapDev vm1 nd.dev).map (·.cfg)).Nodup
-        have : (remapDev vm1 nd.dev).map (·.cfg) = nd.dev.map (·.cfg) := by
-          simp [remapDev, List.map_map, Function.comp_def]
-        rw [this]; exact hndup
-      · intro nc' hnc'
-        have hnc' : nc' ∈ remapDev vm1 nd.dev := hnc'
-        rw [remapDev_eq] at hnc'
-        simp only [List.mem_map] at hnc'
-        obtain ⟨nc, hnc, rfl⟩ := hnc'
-        obtain ⟨a, b, c, d⟩ := hall nc hnc
-        refine ⟨by rw [hc1, h.cfgsEq]; exact a, b, ?_, ?_⟩
-        · -- injectivity of the value map on the spec targets
-          show ((nc.specs.map (remapSpec vm1)).map (·.value)).Nodup
-          have : (nc.specs.map (remapSpec vm1)).map (·.value)
-              = (nc.specs.map (·.value)).map (fun v => (vlookup vm1 v).getD v) := by
-            rw [List.map_map, List.map_map]
-            apply List.map_congr_left
-            intro s hs
-            obtain ⟨b', hb', _⟩ := hlook s.value (d s hs).1
-            simp [remapSpec_of_lookup hb', hb']
-          rw [this]
-          apply nodup_map_of_inj_on c
-          intro x hx y hy hxy
-          simp only [List.mem_map] at hx hy
-          obtain ⟨sx, hsx, rfl⟩ := hx
-          obtain ⟨sy, hsy, rfl⟩ := hy
-          obtain ⟨bx, hbx, _⟩ := hlook sx.value (d sx hsx).1
-          obtain ⟨by', hby, _⟩ := hlook sy.value (d sy hsy).1
-          simp only [hbx, hby, Option.getD_some] at hxy
-          subst hxy
-          exact vm_inj hvmInj (vlookup_mem hbx) (vlookup_mem hby)
-        · intro s' hs'
-          have hs'' : s' ∈ nc.specs.map (remapSpec vm1) := hs'
-          simp only [List.mem_map] at hs''
-          obtain ⟨s, hs, rfl⟩ := hs''
-          obtain ⟨hio, hwf⟩ := d s hs
-          obtain ⟨b', hb', hio'⟩ := hlook s.value hio
-          rw [remapSpec_of_lookup hb']
-          refine ⟨hio', ?_⟩
-          have hslt : s.value < w.values.length := InIO.lt hids hio
-          have hsh := hvmShape _ (vlookup_mem hb') hslt
-          have hcfg : w1.cfg nc.cfg = w.cfg nc.cfg := hextw.cfg _ a
-          show SpecWF w1 (w1.cfg nc.cfg).numDevices _
-          unfold SpecWF at *
-          simp only [rankOf, hsh, hcfg] at *
-          exact hwf
-      · intro nc' hnc'
-        rw [remapDev_eq] at hnc'
-        simp only [List.mem_map] at hnc'
-        obtain ⟨nc, hnc, rfl⟩ := hnc'
-        exact hreg nc hnc
-    obtain ⟨extra, hex, hok⟩ := h.nodes
-    refine ⟨⟨hextw, by rw [hc1, h.cfgsEq], by rw [hm1, h.models], ?_, hvmLt, hvmShape, hvmInj⟩, by rw [hn1]; simp⟩
-    refine ⟨extra ++ [(clonedNode wc ins nd vm1 subs)], by rw [hn1, hex, List.append_assoc], ?_⟩
-    intro x hx
-    simp only [List.mem_append, List.mem_singleton] at hx
-    rcases hx with hx | hx
-    · exact ⟨(hok x hx).1.ext hext1, (hok x hx).2⟩
-    · rw [hx]; exact hnewok
-
-/-- lookups that exist are kept -/
-def VMono (vm vm' : VMap) : Prop := ∀ x b, vlookup vm x = some b → vlookup vm' x = some b
-
-theorem VMono.refl (vm : VMap) : VMono vm vm := fun _ _ h => h
-theorem VMono.trans {a b c : VMap} (h1 : VMono a b) (h2 : VMono b c) : VMono a c :=
-  fun x y h => h2 x y (h1 x y h)
-
-theorem vlookup_cons (vm : VMap) (a x b : VId) :
-    vlookup ((a, b) :: vm) x = if a = x then some b else vlookup vm x := by
-  unfold vlookup
-  simp only [List.find?_cons]
-  by_cases h : a = x <;> simp [h]
-
-theorem cloneValue_mono (st : World × VMap) (v : VId) : VMono st.2 (cloneValue st v).2 := by
-  unfold cloneValue
-  cases hl : vlookup st.2 v with
-  | some b => simp only; exact VMono.refl _
-  | none =>
-    simp only
-    intro x b hx
-    rw [vlookup_cons]
-    split
-    · rename_i e; subst e; rw [hl] at hx; cases hx
-    · exact hx
-
-theorem cloneValue_nodes (st : World × VMap) (v : VId) : (cloneValue st v).1.nodes = st.1.nodes := by
-  unfold cloneValue
-  split <;> rfl
-
-theorem foldl_cloneValue_nodes (ins : List VId) : ∀ (st : World × VMap),
-    (ins.foldl cloneValue st).1.nodes = st.1.nodes := by
-  induction ins with
-  | nil => intro st; rfl
-  | cons v rest ih => intro st; simp only [List.foldl_cons]; rw [ih, cloneValue_nodes]
-
-theorem foldl_cloneValue_mono (ins : List VId) : ∀ (st : World × VMap),
-    VMono st.2 (ins.foldl cloneValue st).2 := by
-  induction ins with
-  | nil => intro st; exact VMono.refl _
-  | cons v rest ih =>
-    intro st
-    simp only [List.foldl_cons]
-    exact (cloneValue_mono st v).trans (ih _)
-
-/-! #### the instrumentation flag only ever goes up -/
-
-def OverMono (rec : CSt → GId → Option (CSt × GId)) : Prop :=
-  ∀ st g st' g', rec st g = some (st', g') → st'.over = false → st.over = false
-
-theorem cloneSubgraphs_over {rec : CSt → GId → Option (CSt × GId)} (hm : OverMono rec) :
-    ∀ (gs : List GId) (st st' : CSt) (subs : List GId),
-    cloneSubgraphs rec st gs = some (st', subs) → st'.over = false → st.over = false := by
-  intro gs
-  induction gs with
-  | nil =>
-    intro st st' subs hc hov
-    simp only [cloneSubgraphs, Option.some.injEq, Prod.mk.injEq] at hc
-    obtain ⟨rfl, _⟩ := hc; exact hov
-  | cons g rest ih =>
-    intro st st' subs hc hov
-    simp only [cloneSubgraphs] at hc
-    cases hr : rec st g with
-    | none => simp [hr] at hc
-    | some r =>
-      obtain ⟨st1, g1⟩ := r
-      simp only [hr] at hc
-      cases hr2 : cloneSubgraphs rec st1 rest with
-      | none => simp [hr2] at hc
-      | some r2 =>
-        obtain ⟨st2, subs2⟩ := r2
-        simp only [hr2, Option.map_some, Option.some.injEq, Prod.mk.injEq] at hc
-        obtain ⟨rfl, _⟩ := hc
-        exact hm st g st1 g1 hr (ih st1 st2 subs2 hr2 hov)
+    · intro v hv
+      have hv : v ∈ List.range' wc.values.length nd.outputs.length := hv
+      rw [List.mem_range'_1] at hv
+      rw [hlenv]; exact hv.2
+    · show ((remapDev _ nd.dev).map (·.cfg)).Nodup
+      have : ∀ L, (remapDev L nd.dev).map (·.cfg) = nd.dev.map (·.cfg) := by
+        intro L; simp [remapDev, List.map_map, Function.comp_def]
+      rw [this]; exact hndup
+    · intro nc' hnc'
+      have hnc' : nc' ∈ remapDev _ nd.dev := hnc'
+      rw [remapDev_eq] at hnc'
+      simp only [List.mem_map] at hnc'
+      obtain ⟨nc, hnc, rfl⟩ := hnc'
+      obtain ⟨a, b, c, d⟩ := hall nc hnc
+      refine ⟨by rw [hc1, h.cfgsEq]; exact a, b, ?_, ?_⟩
+      · -- injectivity of the io map on the spec targets
+        show ((nc.specs.map (remapSpec (nodeIoMap wc vm0 nd))).map (·.value)).Nodup
+        have : (nc.specs.map (remapSpec (nodeIoMap wc vm0 nd))).map (·.value)
+            = (nc.specs.map (·.value)).map (fun v => (vlookup (nodeIoMap wc vm0 nd) v).getD v) := by
+          rw [List.map_map, List.map_map]
+          apply List.map_congr_left
+          intro s hs
+          obtain ⟨b', hb', _⟩ := hlook s.value (d s hs).1
+          simp [remapSpec_of_lookup hb', hb']
+        rw [this]
+        apply nodup_map_of_inj_on c
+        intro x hx y hy hxy
+        simp only [List.mem_map] at hx hy
+        obtain ⟨sx, hsx, rfl⟩ := hx
+        obtain ⟨sy, hsy, rfl⟩ := hy
+        obtain ⟨bx, hbx, _, _, _, cx⟩ := hlook sx.value (d sx hsx).1
+        obtain ⟨by', hby, _, _, _, cy⟩ := hlook sy.value (d sy hsy).1
+        simp only [hbx, hby, Option.getD_some] at hxy
+        have hvx : sx.value < w.values.length := InIO.lt hids (d sx hsx).1
+        have hvy : sy.value < w.values.length := InIO.lt hids (d sy hsy).1
+        rcases cx with ⟨_, zx⟩ | ⟨_, ex⟩ <;> rcases cy with ⟨_, zy⟩ | ⟨_, ey⟩
+        · rw [← hxy] at zy; exact vm_inj hzinj zx zy
+        · have h1 : wc.values.length ≤ bx := (hzip _ _ zx).2.1
+          have h2 : by' < wc.values.length := by rw [ey]; exact (htgt _ hvy).1
+          exact absurd (hxy ▸ h1 : wc.values.length ≤ by') (Nat.not_le.mpr h2)
+        · have h1 : wc.values.length ≤ by' := (hzip _ _ zy).2.1
+          have h2 : bx < wc.values.length := by rw [ex]; exact (htgt _ hvx).1
+          exact absurd (hxy ▸ h1 : wc.values.length ≤ bx) (Nat.not_le.mpr h2)
+        · exact htinj _ _ hvx hvy (by rw [← ex, ← ey, hxy])
+      · intro s' hs'
+        have hs'' : s' ∈ nc.specs.map (remapSpec _) := hs'
+        simp only [List.mem_map] at hs''
+        obtain ⟨s, hs, rfl⟩ := hs''
+        obtain ⟨hio, hwf⟩ := d s hs
+        obtain ⟨b', hb', hio', _, hsh, _⟩ := hlook s.value hio
+        rw [remapSpec_of_lookup hb']
+        refine ⟨hio', ?_⟩
+        have hcfg : w1.cfg nc.cfg = w.cfg nc.cfg := hextw.cfg _ a
+        show SpecWF w1 (w1.cfg nc.cfg).numDevices _
+        unfold SpecWF at *
+        simp only [rankOf, hsh, hcfg] at *
+        exact hwf
+    · intro nc' hnc'
+      have hnc' : nc' ∈ remapDev _ nd.dev := hnc'
+      rw [remapDev_eq] at hnc'
+      simp only [List.mem_map] at hnc'
+      obtain ⟨nc, hnc, rfl⟩ := hnc'
+      exact hreg nc hnc
+  obtain ⟨extra, hex, hok⟩ := h.nodes
+  obtain ⟨vex, hvex⟩ := h.vals
+  refine ⟨⟨hextw, by rw [hc1, h.cfgsEq], by rw [hm1, h.models], ?_, hvmok,
+    ⟨vex ++ nd.outputs.map wc.value, by rw [hv1, hvex, List.append_assoc]⟩⟩, by rw [hn1]; simp⟩
+  refine ⟨extra ++ [(clonedNode wc vm0 nd subs)], by rw [hn1, hex, List.append_assoc], ?_⟩
+  intro x hx
+  simp only [List.mem_append, List.mem_singleton] at hx
+  rcases hx with hx | hx
+  · exact ⟨(hok x hx).1.ext hext1, (hok x hx).2⟩
+  · rw [hx]; exact hnewok
 
 /-- the pieces of a successful `cloneNode` -/
 theorem cloneNode_parts {rec : CSt → GId → Option (CSt × GId)} {st st' : CSt} {nd : NodeS} {k : NId}
     (hc : cloneNode rec st nd = some (st', k)) :
-    ∃ ins st1 subs, cloneInputs st.vm nd.inputs = some ins ∧
+    ∃ st1 subs,
       cloneSubgraphs rec st nd.subgraphs = some (st1, subs) ∧
       k = st1.w.nodes.length ∧
       st'.vm = (nd.outputs.zip (List.range' st1.w.values.length nd.outputs.length)).reverse ++ st1.vm ∧
-      st'.over = (st1.over || nd.outputs.any (fun o => (vlookup st1.vm o).isSome)) ∧
       st'.newNodes = st1.newNodes ++ [st1.w.nodes.length] ∧ st'.newGraphs = st1.newGraphs ∧
       st'.w.values = st1.w.values ++ nd.outputs.map st1.w.value ∧ st'.w.cfgs = st1.w.cfgs ∧
       st'.w.models = st1.w.models ∧
-      st'.w.nodes = st1.w.nodes ++ [clonedNode st1.w ins nd st'.vm subs] := by
+      st'.w.nodes = st1.w.nodes ++ [clonedNode st1.w st.vm nd subs] := by
   unfold cloneNode at hc
-  cases hci : cloneInputs st.vm nd.inputs with
+  cases hci : cloneInputs st.allow st.pending st.vm nd.inputs with
   | none => simp [hci] at hc
   | some ins =>
     simp only [hci] at hc
+    have hins := cloneInputs_eq hci
     cases hcs : cloneSubgraphs rec st nd.subgraphs with
     | none => simp [hcs] at hc
     | some r =>
       obtain ⟨st1, subs⟩ := r
       simp only [hcs, Option.some.injEq, Prod.mk.injEq] at hc
       obtain ⟨rfl, rfl⟩ := hc
-      exact ⟨ins, st1, subs, rfl, rfl, rfl, rfl, rfl, rfl, rfl, rfl, rfl, rfl, rfl⟩
-
-theorem cloneNode_over {rec : CSt → GId → Option (CSt × GId)} (hm : OverMono rec) {st st' : CSt}
-    {nd : NodeS} {k : NId} (hc : cloneNode rec st nd = some (st', k)) (hov : st'.over = false) :
-    st.over = false := by
-  obtain ⟨ins, st1, subs, _, hcs, _, _, ho, _⟩ := cloneNode_parts hc
-  rw [ho, Bool.or_eq_false_iff] at hov
-  exact cloneSubgraphs_over hm _ _ _ _ hcs hov.1
-
-theorem cloneNodes_over {rec : CSt → GId → Option (CSt × GId)} (hm : OverMono rec) (src : World) :
-    ∀ (ns : List NId) (st st' : CSt) (acc res : List NId),
-    cloneNodes rec src st ns acc = some (st', res) → st'.over = false → st.over = false := by
-  intro ns
-  induction ns with
-  | nil =>
-    intro st st' acc res hc hov
-    simp only [cloneNodes, Option.some.injEq, Prod.mk.injEq] at hc
-    obtain ⟨rfl, _⟩ := hc; exact hov
-  | cons n rest ih =>
-    intro st st' acc res hc hov
-    simp only [cloneNodes] at hc
-    cases hcn : cloneNode rec st (src.node n) with
-    | none => simp [hcn] at hc
-    | some r =>
-      obtain ⟨st1, k⟩ := r
-      simp only [hcn] at hc
-      exact cloneNode_over hm hcn (ih st1 st' _ res hc hov)
+      subst hins
+      exact ⟨st1, subs, rfl, rfl, rfl, rfl, rfl, rfl, rfl, rfl, rfl⟩
 
 /-- the pieces of a successful `cloneGraphBody` -/
 theorem cloneGraphBody_parts {rec : CSt → GId → Option (CSt × GId)} {src : World} {st st' : CSt}
     {g g' : GId} (hc : cloneGraphBody rec src st g = some (st', g')) :
     ∃ st2 ns, cloneNodes rec src
         { st with w := (((src.graph g).inputs ++ (src.graph g).inits).foldl cloneValue (st.w, st.vm)).1,
-                  vm := (((src.graph g).inputs ++ (src.graph g).inits).foldl cloneValue (st.w, st.vm)).2 } (src.graph g).nodes [] = some (st2, ns) ∧
-      st'.vm = st2.vm ∧ st'.over = st2.over ∧ st'.newNodes = st2.newNodes ∧
+                  vm := (((src.graph g).inputs ++ (src.graph g).inits).foldl cloneValue (st.w, st.vm)).2,
+                  pending := st.pending ++ ((src.graph g).nodes.map (fun n => (src.node n).outputs)).flatten }
+        (src.graph g).nodes [] = some (st2, ns) ∧
+      st'.vm = st2.vm ∧ st'.newNodes = st2.newNodes ∧
       st'.w.values = st2.w.values ∧ st'.w.cfgs = st2.w.cfgs ∧ st'.w.nodes = st2.w.nodes ∧
       st'.w.models = st2.w.models := by
   unfold cloneGraphBody at hc
@@ -2044,19 +2120,7 @@ theorem cloneGraphBody_parts {rec : CSt → GId → Option (CSt × GId)} {src : 
   · rename_i st2 ns hcn
     simp only [Option.some.injEq, Prod.mk.injEq] at hc
     obtain ⟨rfl, _⟩ := hc
-    exact ⟨st2, ns, hcn, rfl, rfl, rfl, rfl, rfl, rfl, rfl⟩
-
-theorem cloneGraphF_over (src : World) : ∀ (f : Nat), OverMono (cloneGraphF src f) := by
-  intro f
-  induction f with
-  | zero => intro st g st' g' hc; simp [cloneGraphF] at hc
-  | succ f ih =>
-    intro st g st' g' hc hov
-    simp only [cloneGraphF] at hc
-    obtain ⟨st2, ns, hcn, _, ho, _⟩ := cloneGraphBody_parts hc
-    rw [ho] at hov
-    have := cloneNodes_over ih src _ _ _ _ _ hcn hov
-    exact this
+    exact ⟨st2, ns, hcn, rfl, rfl, rfl, rfl, rfl, rfl⟩
 
 /-! #### the invariant -/
 
@@ -2067,8 +2131,8 @@ structure CInv (w : World) (cfgs : List CId) (st : CSt) : Prop where
 
 /-- what `clone_graph` must satisfy on the graphs of the model `ms` of the source world `w` -/
 def RecSpec (w : World) (ms : ModelS) (rec : CSt → GId → Option (CSt × GId)) : Prop :=
-  ∀ st g st' g', g ∈ ms.graphs → rec st g = some (st', g') → st'.over = false → CInv w ms.cfgs st →
-    CInv w ms.cfgs st' ∧ VMono st.vm st'.vm
+  ∀ st g st' g', g ∈ ms.graphs → rec st g = some (st', g') → CInv w ms.cfgs st →
+    CInv w ms.cfgs st' ∧ Ext st.w st'.w
 
 theorem CloneInv.len_le {w : World} {cfgs : List CId} {wc : World} {vm : VMap} (h : CloneInv w cfgs wc vm) :
     w.nodes.length ≤ wc.nodes.length := by
@@ -2076,18 +2140,18 @@ theorem CloneInv.len_le {w : World} {cfgs : List CId} {wc : World} {vm : VMap} (
   rw [hex]; simp
 
 theorem cloneSubgraphs_spec {w : World} {ms : ModelS} {rec : CSt → GId → Option (CSt × GId)}
-    (hm : OverMono rec) (hrec : RecSpec w ms rec) : ∀ (gs : List GId) (st st' : CSt) (subs : List GId),
-    (∀ g ∈ gs, g ∈ ms.graphs) → cloneSubgraphs rec st gs = some (st', subs) → st'.over = false →
-    CInv w ms.cfgs st → CInv w ms.cfgs st' ∧ VMono st.vm st'.vm := by
+    (hrec : RecSpec w ms rec) : ∀ (gs : List GId) (st st' : CSt) (subs : List GId),
+    (∀ g ∈ gs, g ∈ ms.graphs) → cloneSubgraphs rec st gs = some (st', subs) →
+    CInv w ms.cfgs st → CInv w ms.cfgs st' ∧ Ext st.w st'.w := by
   intro gs
   induction gs with
   | nil =>
-    intro st st' subs _ hc _ hinv
+    intro st st' subs _ hc hinv
     simp only [cloneSubgraphs, Option.some.injEq, Prod.mk.injEq] at hc
     obtain ⟨rfl, _⟩ := hc
-    exact ⟨hinv, VMono.refl _⟩
+    exact ⟨hinv, Ext.refl _⟩
   | cons g rest ih =>
-    intro st st' subs hgs hc hov hinv
+    intro st st' subs hgs hc hinv
     simp only [cloneSubgraphs] at hc
     cases hr : rec st g with
     | none => simp [hr] at hc
@@ -2100,60 +2164,41 @@ theorem cloneSubgraphs_spec {w : World} {ms : ModelS} {rec : CSt → GId → Opt
         obtain ⟨st2, subs2⟩ := r2
         simp only [hr2, Option.map_some, Option.some.injEq, Prod.mk.injEq] at hc
         obtain ⟨rfl, _⟩ := hc
-        have ho1 := cloneSubgraphs_over hm _ _ _ _ hr2 hov
-        obtain ⟨b1, c1⟩ := hrec st g st1 g1 (hgs g (by simp)) hr ho1 hinv
-        obtain ⟨b2, c2⟩ := ih st1 st2 subs2 (fun x hx => hgs x (by simp [hx])) hr2 hov b1
+        obtain ⟨b1, c1⟩ := hrec st g st1 g1 (hgs g (by simp)) hr hinv
+        obtain ⟨b2, c2⟩ := ih st1 st2 subs2 (fun x hx => hgs x (by simp [hx])) hr2 b1
         exact ⟨b2, c1.trans c2⟩
 
 theorem cloneNode_spec {w : World} {ms : ModelS} {rec : CSt → GId → Option (CSt × GId)}
-    (hm : OverMono rec) (hrec : RecSpec w ms rec) {st st' : CSt} {nd : NodeS} {k : NId}
+    (hrec : RecSpec w ms rec) {st st' : CSt} {nd : NodeS} {k : NId}
     (hnd : NodeOK w nd) (hreg : ∀ nc ∈ nd.dev, nc.cfg ∈ ms.cfgs) (hsub : ∀ g ∈ nd.subgraphs, g ∈ ms.graphs)
-    (hc : cloneNode rec st nd = some (st', k)) (hov : st'.over = false) (hinv : CInv w ms.cfgs st) :
-    CInv w ms.cfgs st' ∧ VMono st.vm st'.vm := by
-  obtain ⟨ins, st1, subs, hci, hcs, hk, hvm, ho, hnn, hng, hv1, hc1, hm1, hn1⟩ := cloneNode_parts hc
-  rw [ho, Bool.or_eq_false_iff] at hov
-  obtain ⟨hov1, hnokey⟩ := hov
-  obtain ⟨hinv1, hmono1⟩ := cloneSubgraphs_spec hm hrec _ _ _ _ hsub hcs hov1 hinv
-  obtain ⟨hin1, hin2⟩ := cloneInputs_spec hci
-  have hb := buildNode_inv (w1 := st'.w) (vm1 := st'.vm) hinv1.inv hnd hreg (ins := ins) (subs := subs)
-    (fun v hv => by obtain ⟨b, hb1, hb2⟩ := hin1 v hv; exact ⟨b, hmono1 _ _ hb1, hb2⟩)
-    (fun b hb => by obtain ⟨v, hv1', hv2⟩ := hin2 b hb; exact ⟨v, hv1', hmono1 _ _ hv2⟩)
-    hv1 hc1 hm1 hn1 hvm.symm
-  refine ⟨⟨hb.1, ?_⟩, ?_⟩
-  · intro x hx
-    rw [hnn, List.mem_append, List.mem_singleton] at hx
-    rw [hb.2]
-    rcases hx with hx | hx
-    · exact ⟨(hinv1.newOK x hx).1, Nat.lt_succ_of_lt (hinv1.newOK x hx).2⟩
-    · rw [hx]; exact ⟨hinv1.inv.len_le, Nat.lt_succ_self _⟩
-  · refine hmono1.trans ?_
-    intro x b hx
-    rw [hvm, vlookup_append]
-    cases hz : vlookup (nd.outputs.zip (List.range' st1.w.values.length nd.outputs.length)).reverse x with
-    | none => simpa using hx
-    | some b' =>
-      exfalso
-      have hmem := vlookup_mem hz
-      rw [List.mem_reverse] at hmem
-      have hxo : x ∈ nd.outputs := (List.of_mem_zip hmem).1
-      rw [List.any_eq_false] at hnokey
-      have := hnokey x hxo
-      simp [hx] at this
+    (hc : cloneNode rec st nd = some (st', k)) (hinv : CInv w ms.cfgs st) :
+    CInv w ms.cfgs st' ∧ Ext st.w st'.w := by
+  obtain ⟨st1, subs, hcs, hk, hvm, hnn, hng, hv1, hc1, hm1, hn1⟩ := cloneNode_parts hc
+  obtain ⟨hinv1, hext1⟩ := cloneSubgraphs_spec hrec _ _ _ _ hsub hcs hinv
+  have hb := buildNode_inv (w1 := st'.w) (vm1 := st'.vm) hinv1.inv (hinv.inv.vmok.ext hext1) hnd hreg
+    (subs := subs) hv1 hc1 hm1 hn1 hvm.symm
+  refine ⟨⟨hb.1, ?_⟩, hext1.trans (Ext.of_append _ hv1 hc1)⟩
+  intro x hx
+  rw [hnn, List.mem_append, List.mem_singleton] at hx
+  rw [hb.2]
+  rcases hx with hx | hx
+  · exact ⟨(hinv1.newOK x hx).1, Nat.lt_succ_of_lt (hinv1.newOK x hx).2⟩
+  · rw [hx]; exact ⟨hinv1.inv.len_le, Nat.lt_succ_self _⟩
 
 theorem cloneNodes_spec {w : World} {ms : ModelS} {rec : CSt → GId → Option (CSt × GId)}
-    (hm : OverMono rec) (hrec : RecSpec w ms rec) (hD : DevOK w) (hmo : ModelOK w ms) (hcl : Closed w ms) :
+    (hrec : RecSpec w ms rec) (hD : DevOK w) (hmo : ModelOK w ms) (hcl : Closed w ms) :
     ∀ (ns : List NId) (st st' : CSt) (acc res : List NId), (∀ n ∈ ns, n ∈ ms.nodes) →
-    cloneNodes rec w st ns acc = some (st', res) → st'.over = false → CInv w ms.cfgs st →
-    CInv w ms.cfgs st' ∧ VMono st.vm st'.vm := by
+    cloneNodes rec w st ns acc = some (st', res) → CInv w ms.cfgs st →
+    CInv w ms.cfgs st' ∧ Ext st.w st'.w := by
   intro ns
   induction ns with
   | nil =>
-    intro st st' acc res _ hc _ hinv
+    intro st st' acc res _ hc hinv
     simp only [cloneNodes, Option.some.injEq, Prod.mk.injEq] at hc
     obtain ⟨rfl, _⟩ := hc
-    exact ⟨hinv, VMono.refl _⟩
+    exact ⟨hinv, Ext.refl _⟩
   | cons n rest ih =>
-    intro st st' acc res hns hc hov hinv
+    intro st st' acc res hns hc hinv
     simp only [cloneNodes] at hc
     cases hcn : cloneNode rec st (w.node n) with
     | none => simp [hcn] at hc
@@ -2161,9 +2206,8 @@ theorem cloneNodes_spec {w : World} {ms : ModelS} {rec : CSt → GId → Option 
       obtain ⟨st1, k⟩ := r
       simp only [hcn] at hc
       have hn : n ∈ ms.nodes := hns n (by simp)
-      have ho1 := cloneNodes_over hm w _ _ _ _ _ hc hov
-      obtain ⟨b1, c1⟩ := cloneNode_spec hm hrec (hD.node n) (hmo.1 n hn).2 (hcl.2.2.1 n hn) hcn ho1 hinv
-      obtain ⟨b2, c2⟩ := ih st1 st' _ res (fun x hx => hns x (by simp [hx])) hc hov b1
+      obtain ⟨b1, c1⟩ := cloneNode_spec hrec (hD.node n) (hmo.1 n hn).2 (hcl.2.2.1 n hn) hcn hinv
+      obtain ⟨b2, c2⟩ := ih st1 st' _ res (fun x hx => hns x (by simp [hx])) hc b1
       exact ⟨b2, c1.trans c2⟩
 
 theorem CloneInv.of_eq {w : World} {cfgs : List CId} {wc wc' : World} {vm : VMap}
@@ -2171,37 +2215,32 @@ theorem CloneInv.of_eq {w : World} {cfgs : List CId} {wc wc' : World} {vm : VMap
     (hn : wc'.nodes = wc.nodes) (hm : wc'.models = wc.models) : CloneInv w cfgs wc' vm := by
   have hext : Ext wc wc' := Ext.of_eq hv hc
   obtain ⟨extra, hex, hok⟩ := h.nodes
-  refine ⟨h.ext.trans hext, by rw [hc, h.cfgsEq], by rw [hm, h.models], ⟨extra, by rw [hn, hex], ?_⟩, ?_, ?_, h.vmInj⟩
-  · intro nd hnd; exact ⟨(hok nd hnd).1.ext hext, (hok nd hnd).2⟩
-  · intro p hp; rw [hv]; exact h.vmLt p hp
-  · intro p hp hlt
-    have : wc'.value p.2 = wc.value p.2 := by simp [World.value, hv]
-    rw [this]; exact h.vmShape p hp hlt
+  refine ⟨h.ext.trans hext, by rw [hc, h.cfgsEq], by rw [hm, h.models], ⟨extra, by rw [hn, hex], ?_⟩, h.vmok.ext hext,
+    by rw [hv]; exact h.vals⟩
+  intro nd hnd; exact ⟨(hok nd hnd).1.ext hext, (hok nd hnd).2⟩
 
 theorem cloneGraphBody_spec {w : World} {ms : ModelS} {rec : CSt → GId → Option (CSt × GId)}
-    (hm : OverMono rec) (hrec : RecSpec w ms rec) (hD : DevOK w) (hmo : ModelOK w ms) (hcl : Closed w ms) :
+    (hrec : RecSpec w ms rec) (hD : DevOK w) (hmo : ModelOK w ms) (hcl : Closed w ms) :
     RecSpec w ms (cloneGraphBody rec w) := by
-  intro st g st' g' hg hc hov hinv
-  obtain ⟨st2, ns, hcn, hvm, ho, hnn, hv, hcf, hnd, hmd⟩ := cloneGraphBody_parts hc
-  rw [ho] at hov
+  intro st g st' g' hg hc hinv
+  obtain ⟨st2, ns, hcn, hvm, hnn, hv, hcf, hnd, hmd⟩ := cloneGraphBody_parts hc
   have hi := foldl_cloneValue_inv (w := w) (cfgs := ms.cfgs) ((w.graph g).inputs ++ (w.graph g).inits) hinv.inv
   have hnodes := foldl_cloneValue_nodes ((w.graph g).inputs ++ (w.graph g).inits) (st.w, st.vm)
-  have hmono0 := foldl_cloneValue_mono ((w.graph g).inputs ++ (w.graph g).inits) (st.w, st.vm)
-  generalize ((w.graph g).inputs ++ (w.graph g).inits).foldl cloneValue (st.w, st.vm) = r at hcn hi hnodes hmono0
-  have hinv0 : CInv w ms.cfgs { st with w := r.1, vm := r.2 } := by
+  have hext0 := foldl_cloneValue_ext ((w.graph g).inputs ++ (w.graph g).inits) (st.w, st.vm)
+  generalize ((w.graph g).inputs ++ (w.graph g).inits).foldl cloneValue (st.w, st.vm) = r at hcn hi hnodes hext0
+  have hinv0 : CInv w ms.cfgs { st with w := r.1, vm := r.2, pending := st.pending ++ ((w.graph g).nodes.map (fun n => (w.node n).outputs)).flatten } := by
     refine ⟨hi, ?_⟩
     intro k hk
     have hk' : k ∈ st.newNodes := hk
     refine ⟨(hinv.newOK k hk').1, ?_⟩
     show k < r.1.nodes.length
     rw [hnodes]; exact (hinv.newOK k hk').2
-  obtain ⟨b, c⟩ := cloneNodes_spec hm hrec hD hmo hcl _ _ _ _ _ (hcl.2.1 g hg) hcn hov hinv0
+  obtain ⟨b, c⟩ := cloneNodes_spec hrec hD hmo hcl _ _ _ _ _ (hcl.2.1 g hg) hcn hinv0
   refine ⟨⟨(b.inv.of_eq hv hcf hnd hmd) |> fun x => hvm ▸ x, ?_⟩, ?_⟩
   · intro k hk
     rw [hnn] at hk
     rw [hnd]; exact b.newOK k hk
-  · rw [hvm]
-    exact hmono0.trans c
+  · exact (hext0.trans c).trans (Ext.of_eq hv hcf)
 
 theorem cloneGraphF_spec {w : World} {ms : ModelS} (hD : DevOK w) (hmo : ModelOK w ms) (hcl : Closed w ms) :
     ∀ (f : Nat), RecSpec w ms (cloneGraphF w f) := by
@@ -2211,78 +2250,201 @@ theorem cloneGraphF_spec {w : World} {ms : ModelS} (hD : DevOK w) (hmo : ModelOK
   | succ f ih =>
     intro st g st' g' hg hc
     simp only [cloneGraphF] at hc
-    exact cloneGraphBody_spec (cloneGraphF_over w f) ih hD hmo hcl st g st' g' hg hc
+    exact cloneGraphBody_spec ih hD hmo hcl st g st' g' hg hc
+
+/-- one cloner per root graph -/
+theorem cloneRoots_spec {w : World} {ms : ModelS} (hD : DevOK w) (hmo : ModelOK w ms) (hcl : Closed w ms)
+    (f : Nat) : ∀ (gs : List GId) (st st' : CSt) (res : List GId), (∀ g ∈ gs, g ∈ ms.graphs) →
+    cloneRoots w f st gs = some (st', res) → CInv w ms.cfgs st → CInv w ms.cfgs st' := by
+  intro gs
+  induction gs with
+  | nil =>
+    intro st st' res _ hc hinv
+    simp only [cloneRoots, Option.some.injEq, Prod.mk.injEq] at hc
+    obtain ⟨rfl, _⟩ := hc
+    exact hinv
+  | cons g rest ih =>
+    intro st st' res hgs hc hinv
+    simp only [cloneRoots] at hc
+    cases hr : cloneGraphF w f { st with vm := [], pending := [] } g with
+    | none => simp [hr] at hc
+    | some r =>
+      obtain ⟨st1, g1⟩ := r
+      simp only [hr] at hc
+      cases hr2 : cloneRoots w f st1 rest with
+      | none => simp [hr2] at hc
+      | some r2 =>
+        obtain ⟨st2, res2⟩ := r2
+        simp only [hr2, Option.map_some, Option.some.injEq, Prod.mk.injEq] at hc
+        obtain ⟨rfl, _⟩ := hc
+        have hinv0 : CInv w ms.cfgs { st with vm := [], pending := [] } := ⟨hinv.inv.reset, hinv.newOK⟩
+        obtain ⟨b1, _⟩ := cloneGraphF_spec hD hmo hcl f _ g st1 g1 (hgs g (by simp)) hr hinv0
+        exact ih st1 st2 res2 (fun x hx => hgs x (by simp [hx])) hr2 b1
+
+/-- a world that extends `w` by values, well-formed nodes and models whose nodes are old nodes of a
+    well-formed model with the same configurations or new nodes that only reference its configurations -/
+theorem DevOK_extend {w w' : World} (h : DevOK w) (hext : Ext w w')
+    (hnodes : ∃ extra, w'.nodes = w.nodes ++ extra ∧ ∀ nd ∈ extra, NodeOK w' nd)
+    (hmodels : ∀ ms' ∈ w'.models, ∃ ms0, ModelOK w ms0 ∧ ms'.cfgs = ms0.cfgs ∧
+      ∀ n ∈ ms'.nodes, n ∈ ms0.nodes ∨ (n < w'.nodes.length ∧ ∀ nc ∈ (w'.node n).dev, nc.cfg ∈ ms'.cfgs)) :
+    DevOK w' := by
+  obtain ⟨extra, hex, hok⟩ := hnodes
+  have hnode_old : ∀ n, n < w.nodes.length → w'.node n = w.node n := by
+    intro n hn
+    simp [World.node, hex, List.getD_eq_getElem?_getD, List.getElem?_append_left hn]
+  constructor
+  · intro nd hnd
+    rw [hex, List.mem_append] at hnd
+    rcases hnd with h1 | h1
+    · exact (h.1 nd h1).ext hext
+    · exact hok nd h1
+  · intro ms' hms'
+    obtain ⟨ms0, ⟨hma, hmb, hmc⟩, hcf, hn⟩ := hmodels ms' hms'
+    refine ⟨?_, ?_, ?_⟩
+    · intro n hnm
+      rcases hn n hnm with h1 | h1
+      · have hlt := (hma n h1).1
+        refine ⟨Nat.lt_of_lt_of_le hlt (by rw [hex]; simp), ?_⟩
+        intro nc hnc
+        rw [hnode_old n hlt] at hnc
+        rw [hcf]; exact (hma n h1).2 nc hnc
+      · exact h1
+    · intro c hc
+      rw [hcf] at hc
+      refine ⟨Nat.lt_of_lt_of_le (hmb c hc).1 hext.clen, ?_⟩
+      rw [hext.cfg c (hmb c hc).1]; exact (hmb c hc).2
+    · rw [hcf]
+      have : ms0.cfgs.map (fun c => (w'.cfg c).name) = ms0.cfgs.map (fun c => (w.cfg c).name) := by
+        apply List.map_congr_left
+        intro c hc
+        rw [hext.cfg c (hmb c hc).1]
+      rw [this]; exact hmc
+
+/-- the nodes a cloner created only reference the configurations of the model it cloned from -/
+theorem CInv.new_cfgs {w : World} {cfgs : List CId} {st : CSt} (hinv : CInv w cfgs st) {k : NId}
+    (hk : k ∈ st.newNodes) : k < st.w.nodes.length ∧ ∀ nc ∈ (st.w.node k).dev, nc.cfg ∈ cfgs := by
+  obtain ⟨hge, hlt⟩ := hinv.newOK k hk
+  obtain ⟨extra, hex, hok⟩ := hinv.inv.nodes
+  refine ⟨hlt, ?_⟩
+  have hmem : st.w.node k ∈ extra := by
+    have : st.w.node k = st.w.nodes[k] := by simp [World.node, List.getD_eq_getElem?_getD, hlt]
+    rw [this]
+    have hlt' : k < (w.nodes ++ extra).length := by rw [← hex]; exact hlt
+    have : st.w.nodes[k] = (w.nodes ++ extra)[k] := by simp [hex]
+    rw [this, List.getElem_append_right hge]
+    exact List.getElem_mem _
+  exact (hok _ hmem).2
+
+theorem CInv.nodesOK {w : World} {cfgs : List CId} {st : CSt} (hinv : CInv w cfgs st) :
+    ∃ extra, st.w.nodes = w.nodes ++ extra ∧ ∀ nd ∈ extra, NodeOK st.w nd := by
+  obtain ⟨extra, hex, hok⟩ := hinv.inv.nodes
+  exact ⟨extra, hex, fun nd hnd => (hok nd hnd).1⟩
 
 theorem DevOK_clone {w : World} (h : DevOK w) (m : MId) (hpre : Pre w (.clone m)) :
     DevOK (cloneModel w m).1 := by
-  obtain ⟨hcl, hover⟩ := hpre
+  have hcl : Closed w (w.model m) := hpre
   unfold cloneModel
-  unfold cloneModelX at hover ⊢
-  simp only at hover ⊢
-  cases hcg : cloneGraphF w (w.graphs.length + 1) { w := w } (w.model m).graph with
-  | none => simp only [hcg]; exact h
+  simp only
+  cases hcg : cloneRoots w (w.graphs.length + 1) { w := w } (w.model m).roots with
+  | none => exact h
+  | some r =>
+    obtain ⟨st, gs'⟩ := r
+    simp only
+    have hinit : CInv w (w.model m).cfgs { w := w } := ⟨CloneInv.init w _, by simp⟩
+    have hinv := cloneRoots_spec h (h.model m) hcl _ _ _ _ _ hcl.1 hcg hinit
+    obtain ⟨extra, hex, hok⟩ := hinv.nodesOK
+    refine DevOK_extend h (hinv.inv.ext.trans (Ext.of_eq rfl rfl)) ⟨extra, hex, fun nd hnd => (hok nd hnd).ext (Ext.of_eq rfl rfl)⟩ ?_
+    intro ms' hms'
+    have hms'' : ms' ∈ st.w.models ++ [_] := hms'
+    rw [hinv.inv.models, List.mem_append, List.mem_singleton] at hms''
+    rcases hms'' with h1 | h1
+    · exact ⟨ms', h.2 ms' h1, rfl, fun n hn => Or.inl hn⟩
+    · subst h1
+      refine ⟨w.model m, h.model m, rfl, ?_⟩
+      intro n hn
+      exact Or.inr (hinv.new_cfgs hn)
+
+theorem DevOK_newFunction {w : World} (h : DevOK w) (m : MId) : DevOK (newFunction w m).1 := by
+  unfold newFunction
+  simp only
+  have h1 : DevOK ({ w with graphs := w.graphs ++ [{}] } : World) := DevOK_of_eq h rfl rfl rfl rfl
+  apply DevOK_setModel h1
+  obtain ⟨a, b, c⟩ := h.model m
+  exact ⟨a, b, c⟩
+
+theorem DevOK_cloneFunc {w : World} (h : DevOK w) (m : MId) (i : Nat) (hpre : Pre w (.cloneFunc m i)) :
+    DevOK (cloneFunc w m i).1 := by
+  have hcl : Closed w (w.model m) := hpre
+  unfold cloneFunc
+  simp only
+  cases hf : (w.model m).funcs[i]? with
+  | none => exact h
+  | some g =>
+    simp only
+    have hgm : g ∈ (w.model m).graphs := hcl.1 g (by
+      simp only [ModelS.roots, List.mem_cons]; right; exact List.mem_of_getElem? hf)
+    cases hcg : cloneGraphF w (w.graphs.length + 1) { w := w } g with
+    | none => exact h
+    | some r =>
+      obtain ⟨st, g'⟩ := r
+      simp only
+      have hinit : CInv w (w.model m).cfgs { w := w } := ⟨CloneInv.init w _, by simp⟩
+      obtain ⟨hinv, _⟩ := cloneGraphF_spec h (h.model m) hcl _ _ g st g' hgm hcg hinit
+      obtain ⟨extra, hex, hok⟩ := hinv.nodesOK
+      refine DevOK_extend h (hinv.inv.ext.trans (Ext.of_eq rfl rfl)) ⟨extra, hex, fun nd hnd => (hok nd hnd).ext (Ext.of_eq rfl rfl)⟩ ?_
+      intro ms' hms'
+      have hms'' := mem_setModel st.w m _ ms' hms'
+      rw [hinv.inv.models] at hms''
+      rcases hms'' with h1 | ⟨h1, _⟩
+      · exact ⟨ms', h.2 ms' h1, rfl, fun n hn => Or.inl hn⟩
+      · subst h1
+        refine ⟨w.model m, h.model m, rfl, ?_⟩
+        intro n hn
+        have hn' : n ∈ (w.model m).nodes ++ st.newNodes := hn
+        rw [List.mem_append] at hn'
+        rcases hn' with h2 | h2
+        · exact Or.inl h2
+        · exact Or.inr (hinv.new_cfgs h2)
+
+theorem DevOK_cloneSub {w : World} (h : DevOK w) (n : NId) (g : GId) (hpre : Pre w (.cloneSub n g)) :
+    DevOK (cloneSub w n g).1 := by
+  obtain ⟨⟨msA, hmsA, hnA⟩, hall⟩ := hpre
+  unfold cloneSub
+  cases hcg : cloneGraphF w (w.graphs.length + 1) { w := w, allow := true } g with
+  | none => exact h
   | some r =>
     obtain ⟨st, g'⟩ := r
-    simp only [hcg] at hover ⊢
-    have hmo := h.model m
-    obtain ⟨hma, hmb, hmc⟩ := hmo
-    have hinit : CInv w (w.model m).cfgs { w := w } := ⟨CloneInv.init w _, by simp⟩
-    obtain ⟨hinv, _⟩ := cloneGraphF_spec h (h.model m) hcl _ _ _ _ _ hcl.1 hcg hover hinit
-    obtain ⟨extra, hex, hok⟩ := hinv.inv.nodes
-    generalize hnm : ({ graph := g', graphs := st.newGraphs, nodes := st.newNodes, cfgs := (w.model m).cfgs, irVersion := (w.model m).irVersion } : ModelS) = newm
-    have hnm' : newm.nodes = st.newNodes ∧ newm.cfgs = (w.model m).cfgs := by rw [← hnm]; exact ⟨rfl, rfl⟩
-    clear hnm
-    have hext1 : Ext st.w { st.w with models := st.w.models ++ [newm] } := Ext.of_eq rfl rfl
-    have hext : Ext w { st.w with models := st.w.models ++ [newm] } := hinv.inv.ext.trans hext1
-    have hnode_old : ∀ n, n < w.nodes.length → World.node { st.w with models := st.w.models ++ [newm] } n = w.node n := by
-      intro n hn
-      simp [World.node, hex, List.getD_eq_getElem?_getD, List.getElem?_append_left hn]
-    constructor
-    · intro nd hnd
-      have hnd' : nd ∈ st.w.nodes := hnd
-      rw [hex, List.mem_append] at hnd'
-      rcases hnd' with h1 | h1
-      · exact (h.1 nd h1).ext hext
-      · exact (hok nd h1).1.ext hext1
-    · intro ms hms
-      have hms' : ms ∈ st.w.models ++ [newm] := hms
-      rw [hinv.inv.models, List.mem_append, List.mem_singleton] at hms'
-      rcases hms' with h1 | h1
-      · refine (h.2 ms h1).ext hext ?_ ?_
-        · show w.nodes.length ≤ st.w.nodes.length
-          rw [hex]; simp
-        · intro n _ hn nc hnc
-          rw [hnode_old n hn] at hnc
-          exact ⟨nc, hnc, rfl⟩
-      · subst h1
-        obtain ⟨hnm1, hnm2⟩ := hnm'
-        refine ⟨?_, ?_, ?_⟩
-        · intro n hn
-          have hn' : n ∈ st.newNodes := hnm1 ▸ hn
-          obtain ⟨hge, hlt⟩ := hinv.newOK n hn'
-          refine ⟨hlt, ?_⟩
-          intro nc hnc
-          have hmem : World.node { st.w with models := st.w.models ++ [ms] } n ∈ extra := by
-            have : World.node { st.w with models := st.w.models ++ [ms] } n = st.w.nodes[n] := by
-              simp [World.node, List.getD_eq_getElem?_getD, hlt]
-            rw [this]
-            have hlt' : n < (w.nodes ++ extra).length := by rw [← hex]; exact hlt
-            have : st.w.nodes[n] = (w.nodes ++ extra)[n] := by simp [hex]
-            rw [this, List.getElem_append_right hge]
-            exact List.getElem_mem _
-          rw [hnm2]
-          exact (hok _ hmem).2 nc hnc
-        · intro c hc
-          have hc' : c ∈ (w.model m).cfgs := hnm2 ▸ hc
-          refine ⟨Nat.lt_of_lt_of_le (hmb c hc').1 hext.clen, ?_⟩
-          rw [hext.cfg c (hmb c hc').1]; exact (hmb c hc').2
-        · rw [hnm2]
-          have : (w.model m).cfgs.map (fun c => (World.cfg { st.w with models := st.w.models ++ [ms] } c).name)
-              = (w.model m).cfgs.map (fun c => (w.cfg c).name) := by
-            apply List.map_congr_left
-            intro c hc
-            rw [hext.cfg c (hmb c hc).1]
-          rw [this]; exact hmc
+    simp only
+    have hspec : ∀ ms ∈ w.models, n ∈ ms.nodes → CInv w ms.cfgs st := by
+      intro ms hms hn
+      obtain ⟨hg, hcl⟩ := hall ms hms hn
+      have hinit : CInv w ms.cfgs { w := w, allow := true } := ⟨CloneInv.init w _, by simp⟩
+      exact (cloneGraphF_spec h (h.2 ms hms) hcl _ _ g st g' hg hcg hinit).1
+    have hinvA := hspec msA hmsA hnA
+    obtain ⟨extra, hex, hok⟩ := hinvA.nodesOK
+    have hw1 : DevOK ({ st.w with models := st.w.models.map (fun ms =>
+        if n ∈ ms.nodes then { ms with nodes := ms.nodes ++ st.newNodes, graphs := ms.graphs ++ st.newGraphs }
+        else ms) } : World) := by
+      refine DevOK_extend h (hinvA.inv.ext.trans (Ext.of_eq rfl rfl)) ⟨extra, hex, fun nd hnd => (hok nd hnd).ext (Ext.of_eq rfl rfl)⟩ ?_
+      intro ms' hms'
+      have hms'' : ms' ∈ st.w.models.map _ := hms'
+      rw [hinvA.inv.models, List.mem_map] at hms''
+      obtain ⟨ms0, hms0, rfl⟩ := hms''
+      by_cases hn : n ∈ ms0.nodes
+      · simp only [hn, if_true]
+        refine ⟨ms0, h.2 ms0 hms0, rfl, ?_⟩
+        intro k hk
+        have hk' : k ∈ ms0.nodes ++ st.newNodes := hk
+        rw [List.mem_append] at hk'
+        rcases hk' with h2 | h2
+        · exact Or.inl h2
+        · exact Or.inr ((hspec ms0 hms0 hn).new_cfgs h2)
+      · simp only [hn, if_false]
+        exact ⟨ms0, h.2 ms0 hms0, rfl, fun k hk => Or.inl hk⟩
+    apply DevOK_setNode hw1
+    · exact hw1.node n
+    · intro ms hms hn nc hnc
+      exact ((hw1.2 ms hms).1 n hn).2 nc hnc
 
 /-! ### the internal checker on a world satisfying the invariant -/
 
@@ -2489,6 +2651,9 @@ theorem drop_exact {w : World} (h : ∀ n, ∀ nc ∈ (w.node n).dev, ∀ s ∈ 
   | setStage _ _ _ => cases hop
   | clone _ => cases hop
   | roundTrip _ => cases hop
+  | newFunction _ => cases hop
+  | cloneFunc _ _ => cases hop
+  | cloneSub _ _ => cases hop
 
 /-! ### rejected requests -/
 
@@ -2577,7 +2742,22 @@ theorem stepD_raised_same (w : World) (op : Op) (h : (stepD w op).2 = .raised) :
         · rename_i h1 h2 h3; simp [h1, h2, h3] at h
       · rename_i h1 h2; simp [h1, h2] at h
   | clone m =>
-    simp only [stepD, cloneModel, cloneModelX] at h ⊢
+    simp only [stepD, cloneModel] at h ⊢
+    split
+    · rfl
+    · rename_i hc; simp [hc] at h
+  | newFunction m => simp [stepD, newFunction] at h
+  | cloneFunc m i =>
+    simp only [stepD, cloneFunc] at h ⊢
+    cases hf : (w.model m).funcs[i]? with
+    | none => rfl
+    | some g =>
+      simp only [hf] at h ⊢
+      cases hc : cloneGraphF w (w.graphs.length + 1) { w := w } g with
+      | none => rfl
+      | some r => simp [hc] at h
+  | cloneSub n g =>
+    simp only [stepD, cloneSub] at h ⊢
     split
     · rfl
     · rename_i hc; simp [hc] at h
